@@ -292,7 +292,12 @@ class ConvexPolyhedron(Polyhedron):
         -------
             float: Signed volume of the polyhedron.
         """
-        signed_volume = np.sum(np.linalg.det(self._vertices[self._simplices]) / 6)
+        # The tetrahedra are taken from the mean of the vertices rather than from the origin:
+        # determinants of absolute coordinates cancel catastrophically far from the origin.
+        reference = np.mean(self._vertices, axis=0)
+        signed_volume = np.sum(
+            np.linalg.det(self._vertices[self._simplices] - reference) / 6
+        )
         self._volume = abs(signed_volume)
         return signed_volume
 
@@ -413,12 +418,14 @@ class ConvexPolyhedron(Polyhedron):
         self._calculate_signed_volume()
 
     def _centroid_from_triangulated_surface(self):
-        abc = self._vertices[self._simplices]
+        # Coordinates relative to the mean of the vertices (see _calculate_signed_volume).
+        reference = np.mean(self._vertices, axis=0)
+        abc = self._vertices[self._simplices] - reference
         a = abc[:, 0]
         b = abc[:, 1]
         c = abc[:, 2]
         n = np.cross((b - a), (c - a))
-        self._centroid = (
+        self._centroid = reference + (
             1
             / (48 * self._volume)
             * np.sum(n * ((a + b) ** 2 + (b + c) ** 2 + (a + c) ** 2), axis=0)
